@@ -77,18 +77,22 @@ func (r *FeatureRemote) UpdateData(persist bool, function model.FunctionType, da
 }
 
 func (r *FeatureRemote) SetOperations(functions []model.FunctionPropertyType) {
-	r.operations = make(map[model.FunctionType]api.OperationsInterface)
+	operations := make(map[model.FunctionType]api.OperationsInterface)
 	for _, sf := range functions {
 		if sf.Function == nil || sf.PossibleOperations == nil {
 			continue
 		}
-		r.operations[*sf.Function] = NewOperations(
+		operations[*sf.Function] = NewOperations(
 			sf.PossibleOperations.Read != nil,
 			sf.PossibleOperations.Read != nil && sf.PossibleOperations.Read.Partial != nil,
 			sf.PossibleOperations.Write != nil,
 			sf.PossibleOperations.Write != nil && sf.PossibleOperations.Write.Partial != nil,
 		)
 	}
+
+	r.opMux.Lock()
+	r.operations = operations
+	r.opMux.Unlock()
 }
 
 func (r *FeatureRemote) SetMaxResponseDelay(delay *model.MaxResponseDelayType) {
